@@ -255,12 +255,12 @@ static void one_case(const vf::Args& a, uint64_t idx) {
         std::snprintf(api, sizeof api, "roundtrip<%s,%s,%s><%d>", fsr::FLAG_NAME[t], fsr::FLAG_NAME[b], fsr::FLAG_NAME[c], int(N));
         vf::set_case(api, S, idx);
         const AnyK back = TABLE[t][b](out[b][c], F0d, F1d, sig);
-        R.check(api, S, idx, h, dist(back, src[c]), std::max(tol_round(t, b), tol_round(t, c)), dump);
+        R.check(api, S, idx, h, dist(back, src[c]), 8 * std::max(tol_round(t, b), tol_round(t, c)), dump);
       } else if (have[t][c]) {
         std::snprintf(api, sizeof api, "compose<%s,%s,%s><%d>", fsr::FLAG_NAME[t], fsr::FLAG_NAME[b], fsr::FLAG_NAME[c], int(N));
         vf::set_case(api, S, idx);
         const AnyK two = TABLE[t][b](out[b][c], F0d, F1d, sig);
-        R.check(api, S, idx, h, dist(two, out[t][c]), std::max(tol_round(t, c), tol_round(t, b)), dump);
+        R.check(api, S, idx, h, dist(two, out[t][c]), 8 * std::max(tol_round(t, c), tol_round(t, b)), dump);
       }
     }
   }
@@ -353,8 +353,17 @@ int main(int argc, char** argv) {
   vf::Args a(argc, argv);
   fill_table();
   if (a.shard == 0 && a.only < 0) registry_checks();
-  if (a.only >= 0) { one_case(a, uint64_t(a.only)); R.finish(); return 0; }
-  for (long i = 0; i < a.cases; ++i) one_case(a, a.gidx(i));
+  auto guarded = [&](uint64_t idx) {
+    try {
+      one_case(a, idx);
+    } catch (std::exception& e) {   // an exception escaping the library ends the case, never the run
+      char api[64];
+      std::snprintf(api, sizeof api, "exception-escapes<%d>", int(N));
+      R.check(api, STRATA[idx % NSTRATA], idx, idx, INFINITY, 1, [&] { vf::J j; j.i("N", N).i("case", (long long)idx); return j.str(); }, "exception");
+    }
+  };
+  if (a.only >= 0) { guarded(uint64_t(a.only)); R.finish(); return 0; }
+  for (long i = 0; i < a.cases; ++i) guarded(a.gidx(i));
   R.finish();
   return 0;
 }
